@@ -175,17 +175,10 @@ theorem removeConn_spec (s : Srv) (o : Nat) :
     refine ⟨rfl, rfl, rfl, rfl, rfl, rfl, rfl, rfl, rfl, ?_, by simp, ?_⟩
     · intro c' hc; simp [upd_other _ _ _ _ hc]
     · intro y c' hy
-      simp only at hy
-      cases hid : obj.id with
-      | none => simpa [hid] using hy
-      | some y0 =>
-        simp only [hid] at hy
-        split at hy
-        · simp only [upd_apply] at hy
-          split at hy
-          · exact absurd hy (by simp)
-          · exact hy
-        · exact hy
+      simp only [unindex] at hy
+      split at hy
+      · exact absurd hy (by simp)
+      · exact hy
 
 theorem registryUpdate_spec (t : Srv) (c x : Nat) (o : Ctl) (hc : t.ctl c = some o) (ha : o.auth = true)
     (hi : o.id = some x) :
@@ -232,7 +225,11 @@ theorem registryUpdate_spec (t : Srv) (c x : Nat) (o : Ctl) (hc : t.ctl c = some
     split at hy
     · rename_i hyx
       right; exact ⟨hyx, by simpa using hy.symm⟩
-    · left; exact a12 y c' hy
+    · left
+      simp only [unindex] at hy
+      split at hy
+      · exact absurd hy (by simp)
+      · exact a12 y c' hy
 
 theorem respOf_ne_fail (res : HRes) (h : res ≠ .err) : respOf res ≠ .fail := by
   cases res <;> simp_all [respOf]
@@ -248,6 +245,52 @@ theorem respOf_ch {res : HRes} {n : Nat} (h : RespObs.ch n = respOf res) : res =
 
 theorem respOf_ne_na (res : HRes) : respOf res ≠ .na := by
   cases res <;> simp [respOf]
+
+theorem respondOk_spec (t : Srv) (c : Nat) (ty : Ty) (res : HRes) (herr : res ≠ .err) :
+    (respondOk t c ty res).1.now = t.now ∧ (respondOk t c ty res).1.nConns = t.nConns ∧
+    (respondOk t c ty res).1.ipOf = t.ipOf ∧ (respondOk t c ty res).1.nIps = t.nIps ∧
+    (respondOk t c ty res).1.env = t.env ∧ (respondOk t c ty res).1.banned = t.banned ∧
+    (respondOk t c ty res).1.nClients = t.nClients ∧ (respondOk t c ty res).1.nextNonce = t.nextNonce ∧
+    (respondOk t c ty res).1.accepted = t.accepted ∧
+    (∀ c', (respondOk t c ty res).1.ctl c' = t.ctl c' ∨ (respondOk t c ty res).1.ctl c' = none) ∧
+    ((respondOk t c ty res).1.ctl c = t.ctl c) ∧
+    (∀ y c', (respondOk t c ty res).1.reg y = some c' →
+        t.reg y = some c' ∨ (c' = c ∧ pairOf (t.ctl c) = (true, some y) ∧ (respondOk t c ty res).2 ≠ .fail)) ∧
+    ((respondOk t c ty res).2 = respOf res ∨ (respondOk t c ty res).2 = .none) ∧
+    (respondOk t c ty res).2 ≠ .fail ∧ (respondOk t c ty res).2 ≠ .na := by
+  unfold respondOk
+  split
+  · exact ⟨rfl, rfl, rfl, rfl, rfl, rfl, rfl, rfl, rfl, fun _ => Or.inl rfl, rfl, fun _ _ h => Or.inl h,
+      Or.inr rfl, by simp, by simp⟩
+  · split
+    · rename_i hcond
+      simp only [Bool.and_eq_true, bne_iff_ne, ne_eq] at hcond
+      obtain ⟨⟨_, hauth⟩, hid⟩ := hcond
+      cases hc : t.ctl c with
+      | none => simp [getCtl, hc] at hauth
+      | some o =>
+        have hg : getCtl t c = o := by simp [getCtl, hc]
+        rw [hg] at hauth hid
+        obtain ⟨x, hx⟩ := Option.isSome_iff_exists.mp hid
+        have hx0 : (getCtl t c).id.getD 0 = x := by simp [hg, hx]
+        rw [hx0]
+        obtain ⟨a1, a2, a3, a4, a5, a6, a7, a8, a9, a10, a11, a12⟩ := registryUpdate_spec t c x o hc hauth hx
+        refine ⟨a1, a2, a3, a4, a5, a6, a7, a8, a9, a10, by rw [a11, hc], ?_, Or.inl rfl,
+          respOf_ne_fail res herr, respOf_ne_na res⟩
+        intro y c' hy
+        rcases a12 y c' hy with h | ⟨h1, h2⟩
+        · exact Or.inl h
+        · right
+          refine ⟨h2, ?_, respOf_ne_fail res herr⟩
+          simp [pairOf, hauth, hx, h1]
+    · exact ⟨rfl, rfl, rfl, rfl, rfl, rfl, rfl, rfl, rfl, fun _ => Or.inl rfl, rfl, fun _ _ h => Or.inl h,
+        Or.inl rfl, respOf_ne_fail res herr, respOf_ne_na res⟩
+
+theorem dropStaleIndex_reg (t : Srv) (c y c' : Nat) (h : (dropStaleIndex t c).reg y = some c') : t.reg y = some c' := by
+  simp only [dropStaleIndex] at h
+  split at h
+  · exact absurd h (by simp)
+  · exact h
 
 theorem respond_spec (t : Srv) (c : Nat) (ty : Ty) (res : HRes) :
     (respond t c ty res).1.now = t.now ∧ (respond t c ty res).1.nConns = t.nConns ∧
@@ -273,32 +316,13 @@ theorem respond_spec (t : Srv) (c : Nat) (ty : Ty) (res : HRes) :
     · split <;> simp
   · rename_i herr
     have herr : res ≠ .err := by simpa using herr
-    split
-    · exact ⟨rfl, rfl, rfl, rfl, rfl, rfl, rfl, rfl, rfl, fun _ => Or.inl rfl, rfl, fun _ _ h => Or.inl h,
-        Or.inr rfl, fun h => absurd h herr, fun _ => by simp, by simp⟩
-    · split
-      · rename_i hcond
-        simp only [Bool.and_eq_true, bne_iff_ne, ne_eq] at hcond
-        obtain ⟨⟨_, hauth⟩, hid⟩ := hcond
-        cases hc : t.ctl c with
-        | none => simp [getCtl, hc] at hauth
-        | some o =>
-          have hg : getCtl t c = o := by simp [getCtl, hc]
-          rw [hg] at hauth hid
-          obtain ⟨x, hx⟩ := Option.isSome_iff_exists.mp hid
-          have hx0 : (getCtl t c).id.getD 0 = x := by simp [hg, hx]
-          rw [hx0]
-          obtain ⟨a1, a2, a3, a4, a5, a6, a7, a8, a9, a10, a11, a12⟩ := registryUpdate_spec t c x o hc hauth hx
-          refine ⟨a1, a2, a3, a4, a5, a6, a7, a8, a9, a10, by rw [a11, hc], ?_, Or.inl rfl, fun h => absurd h herr,
-            fun _ => respOf_ne_fail res herr, respOf_ne_na res⟩
-          intro y c' hy
-          rcases a12 y c' hy with h | ⟨h1, h2⟩
-          · exact Or.inl h
-          · right
-            refine ⟨h2, ?_, respOf_ne_fail res herr⟩
-            simp [pairOf, hauth, hx, h1]
-      · exact ⟨rfl, rfl, rfl, rfl, rfl, rfl, rfl, rfl, rfl, fun _ => Or.inl rfl, rfl, fun _ _ h => Or.inl h,
-          Or.inl rfl, fun h => absurd h herr, fun _ => respOf_ne_fail res herr, respOf_ne_na res⟩
+    obtain ⟨a1, a2, a3, a4, a5, a6, a7, a8, a9, a10, a11, a12, a13, a14, a15⟩ :=
+      respondOk_spec (dropStaleIndex t c) c ty res herr
+    refine ⟨a1, a2, a3, a4, a5, a6, a7, a8, a9, a10, a11, ?_, a13, fun h => absurd h herr, fun _ => a14, a15⟩
+    intro y c' hy
+    rcases a12 y c' hy with h | h
+    · exact Or.inl (dropStaleIndex_reg t c y c' h)
+    · exact Or.inr h
 
 /-! ### the session layer as a whole -/
 
@@ -1202,3 +1226,147 @@ theorem reachable_invs (s : Srv) (I : Inv s) (A : AccInv s) (es : List Event) :
   induction es generalizing s with
   | nil => exact ⟨I, A⟩
   | cons e es ih => exact ih _ (I.preserved e) (A.preserved I e)
+
+/-! ### the client index is sound (since the registry drops index entries by identity) -/
+
+/-- `GetControlConnectionByClientID(y) = c` implies `c` is authenticated as `y` -/
+def RegSound (s : Srv) : Prop := ∀ y c, s.reg y = some c → pairOf (s.ctl c) = (true, some y)
+
+theorem unindex_some {reg : Nat → Option Nat} {o y c : Nat} (h : unindex reg o y = some c) : reg y = some c ∧ c ≠ o := by
+  simp only [unindex] at h
+  split at h
+  · exact absurd h (by simp)
+  · rename_i hne
+    refine ⟨h, ?_⟩
+    intro hc; subst hc
+    exact hne (by simp [h])
+
+theorem removeConn_sound {s : Srv} (R : RegSound s) (o : Nat) : RegSound (removeConn s o) := by
+  unfold removeConn
+  split
+  · exact R
+  · intro y c h
+    obtain ⟨h1, h2⟩ := unindex_some h
+    simp only [upd_other _ _ _ _ h2]
+    exact R y c h1
+
+theorem evictOld_sound {s : Srv} (R : RegSound s) (c x : Nat) :
+    RegSound (evictOld s c x) ∧ (evictOld s c x).ctl c = s.ctl c := by
+  unfold evictOld
+  split
+  · rename_i o _
+    split
+    · rename_i hne
+      have hne : o ≠ c := by simpa using hne
+      refine ⟨removeConn_sound R o, ?_⟩
+      exact (removeConn_spec s o).2.2.2.2.2.2.2.2.2.1 c (Ne.symm hne)
+    · exact ⟨R, rfl⟩
+  · exact ⟨R, rfl⟩
+
+theorem updateAuth_sound {s : Srv} (R : RegSound s) (c x : Nat) : RegSound (updateAuth s c x) := by
+  intro y c' h
+  simp only [updateAuth, upd_apply] at h
+  split at h
+  · rename_i hyx
+    have : c' = c := by simpa using h.symm
+    subst this; subst hyx
+    simp [updateAuth, pairOf]
+  · obtain ⟨h1, h2⟩ := unindex_some h
+    simp only [updateAuth, upd_other _ _ _ _ h2]
+    exact R y c' h1
+
+theorem respondOk_sound {t : Srv} (R : RegSound t) (c : Nat) (ty : Ty) (res : HRes) :
+    RegSound (respondOk t c ty res).1 := by
+  unfold respondOk
+  split
+  · exact R
+  · split
+    · exact updateAuth_sound (evictOld_sound R c _).1 c _
+    · exact R
+
+theorem respond_sound {t : Srv} (c : Nat) (ty : Ty) (res : HRes) (h1 : res = .err → RegSound t)
+    (h2 : res ≠ .err → ∀ y c', t.reg y = some c' → (c' ≠ c ∨ (getCtl t c).id = some y) →
+      pairOf (t.ctl c') = (true, some y)) : RegSound (respond t c ty res).1 := by
+  unfold respond
+  split
+  · rename_i herr; exact h1 (by simpa using herr)
+  · rename_i herr
+    have herr : res ≠ .err := by simpa using herr
+    apply respondOk_sound
+    intro y c' h
+    simp only [dropStaleIndex] at h ⊢
+    split at h
+    · exact absurd h (by simp)
+    · rename_i hk
+      refine h2 herr y c' h ?_
+      by_cases hc : c' = c
+      · right
+        subst hc
+        simp only [h, beq_self_eq_true, Bool.true_and, bne_iff_ne, ne_eq, Decidable.not_not] at hk
+        exact hk
+      · exact Or.inl hc
+
+theorem handleHandshake_sound {s : Srv} (R : RegSound s) (c : Nat) (ty : Ty) (req : Req) :
+    RegSound (handleHandshake s c ty req).1 := by
+  unfold handleHandshake
+  split
+  · exact R
+  · obtain ⟨e1, e2, e3, e4, _, _, _, _, _, _, e11, _⟩ := ensureCtl_spec s c
+    obtain ⟨f1, f2, f3, _⟩ := HandleHandshake_spec (ensureCtl s c) c req
+    obtain ⟨_, _, _, _, _, g6, _, _⟩ := f1
+    generalize (HandleHandshake (ensureCtl s c) c req).1 = t at *
+    generalize (HandleHandshake (ensureCtl s c) c req).2 = res at *
+    obtain ⟨m1, _⟩ := AOut_mid f3 (by rw [e2]; exact e1)
+    rw [e4] at m1
+    have hother : ∀ y c', c' ≠ c → t.reg y = some c' → pairOf (t.ctl c') = (true, some y) := by
+      intro y c' hc h
+      rw [g6, e11] at h
+      rw [f2 c' hc, e3 c' hc]
+      exact R y c' h
+    apply respond_sound
+    · intro herr y c' h
+      by_cases hc : c' = c
+      · subst hc
+        rcases m1 with m | ⟨x, _, hj⟩
+        · rw [m]; rw [g6, e11] at h; exact R y c' h
+        · rcases hj with ⟨_, _, _, hh⟩ | ⟨_, _, _, _, _, _, _, hh⟩ <;> rw [herr] at hh <;> cases hh
+      · exact hother y c' hc h
+    · intro _ y c' h hor
+      by_cases hc : c' = c
+      · subst hc
+        have hid : (getCtl t c').id = some y := by
+          rcases hor with hor | hor
+          · exact absurd rfl hor
+          · exact hor
+        have hold : pairOf (s.ctl c') = (true, some y) := by rw [g6, e11] at h; exact R y c' h
+        rcases m1 with m | ⟨x, hx, _⟩
+        · rw [m]; exact hold
+        · cases ht : t.ctl c' with
+          | none => rw [ht] at hx; simp [pairOf] at hx
+          | some o =>
+            rw [ht] at hx
+            simp only [getCtl, ht, Option.getD_some] at hid
+            simp only [pairOf, Prod.mk.injEq] at hx ⊢
+            exact ⟨hx.1, hid⟩
+      · exact hother y c' hc h
+
+theorem step_sound {s : Srv} (R : RegSound s) (e : Event) : RegSound (Tunnox.C03.step s e).1 := by
+  have h : RegSound (stepCore s e).1 := by
+    cases e with
+    | fc c ty => exact handleHandshake_sound R c ty _
+    | hs c ty k rr => exact handleHandshake_sound R c ty _
+    | mal c => exact R
+    | ban ip => exact R
+    | unban ip => exact R
+    | bl ip => exact R
+    | unbl ip => exact R
+    | refill ip => exact R
+    | exp k => exact R
+    | del k => exact R
+    | strip k => exact R
+  exact h
+
+theorem reachable_sound (s : Srv) (R : RegSound s) (es : List Event) : RegSound (runState s es) := by
+  induction es generalizing s with
+  | nil => exact R
+  | cons e es ih => exact ih _ (step_sound R e)
